@@ -5,7 +5,7 @@
 From Coq Require Import List String Bool.
 Import ListNotations.
 From DI Require Import Syntax Subs Superset Substitute Spec Examples.
-From DI.proofs Require Import Basics SupersetSound SupersetExact.
+From DI.proofs Require Import Basics SupersetSound SupersetExact SubstituteProofs.
 
 (* ===================================================================================== *)
 (* C09 -- header generalisation is exact first-order matching                             *)
@@ -61,3 +61,18 @@ Example C09_nonvacuous :
   /\ apply ex_subs ex_pat = ex_inst.
 Proof. vm_compute. repeat split. Qed.
 Print Assumptions C09_nonvacuous.
+
+(* ===================================================================================== *)
+(* C10 -- bound re-expression over a more general header is exact                         *)
+(* ===================================================================================== *)
+
+(* the result is never empty, for every substitution and every key *)
+Theorem C10_nonempty : forall s bounded trait_, subst_key s bounded trait_ <> [].
+Proof. exact subst_key_nonempty. Qed.
+Print Assumptions C10_nonempty.
+
+(* under the identity substitution the bound is returned unchanged (and only it) *)
+Theorem C10_identity : forall s bounded trait_,
+  (forall p v, In (p, v) s -> v = VIdentity) -> subst_key s bounded trait_ = [(bounded, trait_)].
+Proof. exact subst_key_identity. Qed.
+Print Assumptions C10_identity.
